@@ -140,6 +140,7 @@ func c11World(rc *kernel.RunCtx) {
 	t := rc.T
 	k := kernel.New(t, kernel.M1, 1<<30)
 	kernel.Active = k
+	defer lockAware(k)()
 	kn := drawKnobs(t, rc.Run)
 	kn.install(t)
 	defer simsync.SetPoolPolicy(nil, 0)
